@@ -71,8 +71,36 @@ fn gen_set(rng: &mut Rng, n: usize, now: u64) -> Vec<([u8; 32], u64)> {
     (0..n).map(|_| (rng.array32(), base + rng.below(spread))).collect()
 }
 
+/// Encoding of the bundle `y` with its list of secrets rearranged to follow `perm` (indices into
+/// `secrets`). Built from the decoded structure of a real encoding, never from the encoder's order.
+fn permuted_encoding(y: &SecretBundleState, perm: &[usize], secrets: &[GroupSecret]) -> Option<Vec<u8>> {
+    let real = encode_cbor(y).ok()?;
+    let value: ciborium::Value = ciborium::de::from_reader(&real[..]).ok()?;
+    let items = value.as_array()?.clone();
+    if items.len() != secrets.len() {
+        return None;
+    }
+    // Identify each encoded item by decoding it on its own.
+    let mut by_id: Vec<(GroupSecretId, ciborium::Value)> = Vec::new();
+    for item in items {
+        let mut buf = Vec::new();
+        ciborium::ser::into_writer(&item, &mut buf).ok()?;
+        let s: GroupSecret = decode_cbor(&buf[..]).ok()?;
+        by_id.push((s.id(), item));
+    }
+    let mut out = Vec::new();
+    for &i in perm {
+        let id = secrets[i].id();
+        out.push(by_id.iter().find(|(k, _)| *k == id)?.1.clone());
+    }
+    let mut bytes = Vec::new();
+    ciborium::ser::into_writer(&ciborium::Value::Array(out), &mut bytes).ok()?;
+    Some(bytes)
+}
+
 fn part_orders(ctx: &mut Ctx, rng_seed: u64, sets: u64, max_n: usize) {
     let now = now_secs();
+    let erng = enc_rng(&mut Rng::fork(rng_seed, 0x36D));
     for case in 0..sets {
         let mut rng = Rng::fork(rng_seed, case);
         let n = 2 + rng.usize_below(max_n - 1);
@@ -115,6 +143,40 @@ fn part_orders(ctx: &mut Ctx, rng_seed: u64, sets: u64, max_n: usize) {
                     json!({"seed": ctx.seed, "case": witness(), "before": show(fin), "after": show(back.latest().map(key))}),
                 );
                 ok = false;
+            }
+            // (d') decode a hand-built encoding whose list is in *this* order (a peer, or an older
+            // version of the library, need not write the list in any particular order): take the
+            // structure of a real encoding, permute the array, re-encode, decode.
+            if let Some(bytes) = permuted_encoding(&y, &perm, &secrets) {
+                match decode_cbor::<SecretBundleState, _>(&bytes[..]) {
+                    Ok(dec) => {
+                        ctx.rep.bump("decodes_of_permuted_encodings", 1);
+                        let got = dec.latest().map(key);
+                        if got != oracle(&dec) || got != want_final {
+                            ctx.rep.violation(
+                                "C36:latest-not-maximum:after-decode-of-permuted-encoding",
+                                format!("a bundle decoded from an encoding that lists the secrets in order {perm:?} has latest() = {} but the maximum by (timestamp, id) is {}", show(got), show(want_final)),
+                                json!({"seed": ctx.seed, "case": witness(), "encoding_hex": hex(&bytes), "latest": show(got), "maximum": show(want_final)}),
+                            );
+                            ok = false;
+                        }
+                        // generate on the decoded bundle must be strictly later than the true maximum.
+                        if let (Some(maxk), Ok(fresh)) = (want_final, SecretBundle::generate(&dec, &erng)) {
+                            ctx.rep.bump("generate_calls", 1);
+                            if key(&fresh) <= maxk {
+                                ctx.rep.violation(
+                                    "C36:generated-secret-not-later:after-decode-of-permuted-encoding",
+                                    format!("generate on a bundle decoded from list order {perm:?} returned timestamp {} which is not later than the bundle's maximum {}", fresh.timestamp(), maxk.0),
+                                    json!({"seed": ctx.seed, "case": witness(), "encoding_hex": hex(&bytes), "generated": show(Some(key(&fresh))), "maximum": show(want_final)}),
+                                );
+                                ok = false;
+                            }
+                        }
+                    }
+                    Err(e) => ctx.rep.inconclusive(format!("hand-built permuted encoding does not decode: {e}")),
+                }
+            } else {
+                ctx.rep.inconclusive("could not rebuild a permuted encoding from the structure of a real one");
             }
             // (e) remove the current latest, then the rest in this order
             let mut yr = y.clone();
@@ -314,7 +376,7 @@ pub fn run(args: &Args) {
         &format!(
             "part 1: {sets} sets of 2..={max_n} secrets with timestamps from pools of 1-3 values (around 0, now, \
              now+10y, u64::MAX-3, random), every insertion order, checked after each insert / from_secrets / extend \
-             both ways / CBOR round-trip / remove; one case per (set, order), non-trivial = the set has a timestamp \
+             both ways / CBOR round-trip / decode of a hand-built encoding whose list follows that order (+ generate on it) / remove; one case per (set, order), non-trivial = the set has a timestamp \
              collision; part 2: {runs} random op sequences (insert/remove/extend/round-trip) over pools of 2-11 \
              secrets, non-trivial = the bundle held tied timestamps; part 3: {gens} generate chains against the real \
              wall clock with the bundle's latest in the past / at now / ahead by 1 s, 10 years, up to 2^62 s, \
